@@ -78,8 +78,9 @@ func main() {
 			fmt.Println(err)
 		}
 
-		if len(t) > 0 {
-			n := t[0]
+		// every statement goes through the same steps as in the other modes
+		for _, n := range t {
+			n = n.STRewrite(node.SymTbl{})
 			node.ByteCode(n, cr)
 			if v, err := virtM.Run(true); err == nil {
 				fmt.Println(v)
